@@ -51,6 +51,11 @@ def scripted_programs(bpc):
         [["makedir", "/cs"], ["create", "/cs/Readme.txt"], ["create", "/cs/readme.txt"], ["makedir", "/cs/Pictures2023"], ["makedir", "/cs/pictures"],
          ["create", "/cs/documentation.txt"], ["create", "/cs/document.txt"], ["create", "/cs/DATA.BIN"], ["create", "/cs/data.bin.old"], ["create", "/cs/Data.Bin"],
          ["listdir", "/cs"], ["remove", "/cs/readme.txt"], ["exists", "/cs/Readme.txt"], ["removedir", "/cs/pictures"], ["isdir", "/cs/Pictures2023"], ["listdir", "/cs"]],
+        # operations that change nothing but time stamps: re-creating (wiping) a file that is already empty, in the root and below; opening for
+        # append and closing without a write; then an unrelated operation (C03-m5: the new times existed in memory only)
+        [["create", "/EMPTY.TXT"], ["makedir", "/t"], ["create", "/t/empty too.txt"], ["create", "/EMPTY.TXT", 1], ["getinfo", "/EMPTY.TXT"],
+         ["create", "/t/empty too.txt", 1], ["getinfo", "/t/empty too.txt"], ["open", "a", "/EMPTY.TXT", "a"], ["hclose", "a"], ["makedir", "/u"],
+         ["create", "/EMPTY.TXT", 1], ["listdir", "/"]],
     ]
 
 
